@@ -81,6 +81,21 @@ theorem C17_serve_404_iff (s : Site) (p : Path) :
   simp only [Site.serve, expandUpa]
   cases h : s.route p <;> simp
 
+/-- Uri-Path-Abbrev (`_expand_upa`): a known value without Uri-Path is served exactly like the
+request for the path it abbreviates (so all clauses apply to it); together with a Uri-Path, or
+unknown, it is a 4.02. -/
+theorem C17_uri_path_abbrev (s : Site) (n : Nat) (p : Path) :
+    s.serve (some n) p =
+      if p ≠ [] then .badOption else
+      match upaTable.lookup n with
+      | some q => s.serve none q
+      | none => .badOption := by
+  simp only [Site.serve, expandUpa]
+  by_cases hp : p = []
+  · simp only [hp, ne_eq, not_true_eq_false, ↓reduceIte]
+    cases upaTable.lookup n <;> rfl
+  · simp [hp]
+
 -- the handler's view -----------------------------------------------------------------------
 
 /-- `Reaches s m id`: following registration keys that concatenate to `m` from `s` — sub-site
